@@ -74,6 +74,38 @@ def qv(value):
     return z3.RealVal(fr)
 
 
+_anchor_cache = {}
+
+
+def loop_key(header):
+    h = " ".join(header.split()).rstrip(":")
+    if h.startswith("for ") and " in " in h:
+        return h.split(" in ")[0]
+    return h.split(" ")[0]
+
+
+def norm_anchor(text):
+    """anchors are compared as ast.unparse output (so spelling differences such as optional parentheses vanish)"""
+    if text not in _anchor_cache:
+        try:
+            node = ast.parse(text.strip()).body[0]
+            t = ast.unparse(node)
+            if isinstance(node, (ast.For, ast.While, ast.If, ast.Try, ast.With)):
+                t = t.split("\n")[0]
+        except SyntaxError:
+            t = text          # loop / if headers written without a body
+        _anchor_cache[text] = " ".join(t.split())
+    return _anchor_cache[text]
+
+
+def anchor_matches(anchor, text):
+    """an anchor ending in '...' matches any statement starting with the text before it"""
+    a = anchor.strip()
+    if a.endswith("..."):
+        return text.startswith(" ".join(a[:-3].split()))
+    return norm_anchor(a) == text
+
+
 def is_z3(v):
     return isinstance(v, z3.ExprRef)
 
@@ -225,7 +257,8 @@ class Engine:
         if clash:
             raise EngineError(f"{self.qualname}: specification names clash with program variables: {sorted(clash)}")
         for g in c.ghost_funs:
-            self.gfuns[g.name] = z3.Function(f"{g.name}", *g.arg_sorts, g.ret_sort)
+            self.gfuns[g.name] = z3.Function(f"{g.name}", *g.arg_sorts, g.ret_sort) if g.arg_sorts \
+                else z3.Const(g.name, g.ret_sort)
         for name, text in c.lets.items():
             st.env[name] = self.spec(Clause(text), st)
         for ax in c.axioms:
@@ -269,6 +302,10 @@ class Engine:
         if lem.method == "auto":
             env2, xs, hyps, goal = instance()
             env2.assume(*hyps)
+            for k, h in enumerate(lem.hints):
+                g = self.spec(h, env2)
+                self.oblige(env2, g, f"lemma:{lem.name}/hint#{k}", "lemma", None, h.text)
+                env2.assume(g)
             self.oblige(env2, goal, f"lemma:{lem.name}", "lemma", None, lem.statement.text)
             return
         kind, var, lo = lem.method
@@ -385,7 +422,7 @@ class Engine:
             text = " ".join(ast.unparse(s).split()) if not isinstance(s, (ast.For, ast.While, ast.If, ast.Try, ast.With)) \
                 else " ".join(ast.unparse(s).split("\n")[0].split())
             for k, (when, anchor, ghost) in enumerate(self.c.hooks):
-                if " ".join(anchor.split()) == text:
+                if anchor_matches(anchor, text):
                     self.hook_seen.add(k)
                     (before if when == "before" else after).append(ghost)
         for g in before:
@@ -609,7 +646,9 @@ class Engine:
             spec = LoopSpec(**spec)
             self.c.loops[lab] = spec
         head = " ".join(ast.unparse(s).split("\n")[0].split())
-        if spec.match is not None and " ".join(spec.match.split()) != head.rstrip(":"):
+        # a loop contract is bound by ordinal path + loop kind + iteration variable(s); a changed iterable or guard is a
+        # semantic change that the obligations themselves decide, not a binding failure
+        if spec.match is not None and loop_key(spec.match) != loop_key(head):
             raise StaleContract(f"{self.qualname}: loop {lab} is now {head!r}, the contract expects {spec.match!r}")
         self.loop_seen.add(lab)
         return lab, spec
@@ -680,7 +719,7 @@ class Engine:
                               if isinstance(n, (ast.For, ast.While, ast.If, ast.Try, ast.With))
                               else " ".join(ast.unparse(n).split()))
             for (when, anchor, ghost) in self.c.hooks:
-                if " ".join(anchor.split()) in texts:
+                if any(anchor_matches(anchor, t) for t in texts):
                     names.add(ghost.split("=")[0].strip())
         names |= set(spec.modifies)
         return names
@@ -847,6 +886,8 @@ class Engine:
     # ------------------------------------------------------------------------------------------ assignment
     def assign(self, t, v, st, node):
         if isinstance(t, ast.Name):
+            if self.c.coerce.get(t.id) == "Real" and is_int(v):
+                v = z3.ToReal(v)
             st.env[t.id] = v
         elif isinstance(t, (ast.Tuple, ast.List)):
             items = self.unpack(v, len(t.elts), st)
@@ -1033,6 +1074,8 @@ class Engine:
         if e.id in st.env:
             return st.env[e.id]
         if spec:
+            if e.id in self.gfuns and is_z3(self.gfuns[e.id]):
+                return self.gfuns[e.id]
             if e.id in SORTS:
                 return PyConst(("sort", e.id))
             if e.id in ("True", "False"):
@@ -1459,24 +1502,16 @@ class Engine:
         for n in missing:
             d = self.default_arg(qual, n, st)
             cst.env[n] = d
-        sub = Engine.__new__(type(self))
-        sub.__dict__.update(self.__dict__)
-        sub.c = callee
-        sub.gfuns = dict(self.gfuns)
-        # ghost functions of the callee are shared by name (declared once per run)
-        for g in callee.ghost_funs:
-            key = f"{g.name}@{qual.partition('::')[2]}"
-            sub.gfuns[g.name] = z3.Function(key, *g.arg_sorts, g.ret_sort)
-        for name, text in callee.lets.items():
-            cst.env[name] = sub.spec(Clause(text), cst)
-        for ax in callee.axioms:
-            st.assume(sub.spec(ax, cst))
+        sub = self.sub_engine(callee, qual, cst, st)
         cst.old = dict(cst.env)
         cst.oldheap = {k: dict(v) for k, v in st.heap.items()}
         line = getattr(e, "lineno", None)
         tag = f"call-{qual.partition('::')[2]}@{line}"
         for k, cl in enumerate(callee.requires):
-            self.oblige(st, sub.spec(cl, cst), f"{tag}/pre#{cl.name or k}", "call_pre", line, cl.text, cl.props)
+            g = sub.spec(cl, cst)
+            self.oblige(st, g, f"{tag}/pre#{cl.name or k}", "call_pre", line, cl.text, cl.props)
+            st.assume(g)
+        self.import_lemmas(sub, callee, cst, st)
         # exceptional exits declared by the callee: {"when": may raise only when} / {"iff": raises exactly when}
         for exc, rs in callee.raises.items():
             cond = rs.get("iff", rs.get("when"))
@@ -1496,6 +1531,35 @@ class Engine:
         for cl in callee.ensures:
             st.assume(sub.spec(cl, cst))
         return res
+
+    def sub_engine(self, callee, qual, cst, st):
+        """spec evaluator for a callee's contract at a call site: fresh instances of the callee's ghost functions
+        (they depend on the actual arguments), exported to the caller's specification under their own names"""
+        sub = Engine.__new__(type(self))
+        sub.__dict__.update(self.__dict__)
+        sub.c = callee
+        sub.gfuns = dict(self.gfuns)
+        self.call_no = getattr(self, "call_no", 0) + 1
+        for g in callee.ghost_funs:
+            gname = f"{g.name}@{qual.rpartition('.')[2]}#{self.call_no}"
+            f = z3.Function(gname, *g.arg_sorts, g.ret_sort) if g.arg_sorts else z3.Const(gname, g.ret_sort)
+            sub.gfuns[g.name] = f
+            if g.name not in self.gfuns and g.name not in self.c.macros:
+                self.gfuns[g.name] = f
+        for name, text in callee.lets.items():
+            cst.env[name] = sub.spec(Clause(text), cst)
+        for ax in callee.axioms:
+            st.assume(sub.spec(ax, cst))
+        return sub
+
+    def import_lemmas(self, sub, callee, cst, st):
+        """a callee's lemmas were proved from its axioms and requires; once the requires are established at the call
+        site, the lemma statements hold for this instantiation"""
+        if not callee.export_lemmas:
+            return
+        for lem in callee.lemmas:
+            lst = State(env=dict(cst.env), pc=st.pc, heap=st.heap, old=cst.old, nxt=st.nxt)
+            st.assume(sub.lemma_statement(lem, lst))
 
     def call_frame(self, callee, cst, st):
         pass
@@ -1836,21 +1900,15 @@ class Engine:
         argvals = [self.ev(a, st, False) for a in node.args]
         pnames = list(callee.params)
         cst = State(env=dict(zip(pnames, argvals)), pc=st.pc, heap=st.heap, nxt=st.nxt)
-        sub = Engine.__new__(type(self))
-        sub.__dict__.update(self.__dict__)
-        sub.c = callee
-        sub.gfuns = dict(self.gfuns)
-        for g in callee.ghost_funs:
-            sub.gfuns[g.name] = z3.Function(f"{g.name}@{qual.partition('::')[2]}", *g.arg_sorts, g.ret_sort)
-        for name, text in callee.lets.items():
-            cst.env[name] = sub.spec(Clause(text), cst)
-        for ax in callee.axioms:
-            st.assume(sub.spec(ax, cst))
+        sub = self.sub_engine(callee, qual, cst, st)
         cst.old = dict(cst.env)
         line = node.lineno
         for k, cl in enumerate(callee.requires):
-            self.oblige(st, sub.spec(cl, cst), f"call-{qual.partition('::')[2]}@{line}/pre#{cl.name or k}", "call_pre",
+            g = sub.spec(cl, cst)
+            self.oblige(st, g, f"call-{qual.partition('::')[2]}@{line}/pre#{cl.name or k}", "call_pre",
                         line, cl.text, cl.props)
+            st.assume(g)
+        self.import_lemmas(sub, callee, cst, st)
         count = sub.spec(callee.count, cst)
         tmpl = callee.returns.fresh("yield_tmpl")
         # ghost sequence of yielded values: one lifted family indexed by the yield number
